@@ -151,3 +151,174 @@ def post_prefix(ip, ctx, out):
 
 
 META = {'level': 'proof', 'explanation': '', 'trusted_base': [], 'clauses': []}
+
+
+# ---- what PT-TEMPO writes into the process tensor: PtTempoBackend.get_mpo_tensor / update_process_tensor
+class PtReadoutTarget:
+    """get_mpo_tensor(step) on a finished MPS of n = 2..5 sites (free tensors): the tensor handed to the process tensor is the MPS
+    site tensor of THAT step with legs (bond to the past, bond to the future, system leg) -- a dummy leg of size one at either end --
+    times the Hilbert-space dimension (tnnorm).  Enumerated in the number of steps; all dimensions free."""
+
+    def __init__(self, prop=PROP):
+        self.prop, self.name, self.qualname = prop, 'pt/readout', 'backends.pt_tempo_backend.PtTempoBackend.get_mpo_tensor'
+
+    def replay(self, ob):
+        return {'func': 'tempo_vs_pt', 'inputs': {'obligation': ob['name']}}
+
+    def run(self, timeout_ms, tier):
+        import time
+        from pyvc import tnnorm
+        from pyvc.tnnorm import TArr, equal
+        from pyvc.interp import Interp
+        from pyvc.modules import Repo, describe
+        from pyvc import values as Vv
+        from . import nasvd
+        t0 = time.time()
+        repo = Repo()
+        res = {'target': self.name, 'function': self.qualname, 'property': self.prop, 'paths': 0, 'obligations': [], 'undecided': [], 'errors': [],
+               'flags': ['FREE_TENSOR_SYMBOLS', 'ENUMERATED_NUMBER_OF_SITES[2..5]'], 'lib_pure': [], 'lib_used': ['tensornetwork.Node.reorder_edges/get_tensor (contracts)'],
+               'functions_extra': []}
+        fref = repo.resolve(self.qualname)
+        ctor = repo.resolve('backends.node_array.NodeArray')
+        if fref is None or ctor is None:
+            res['undecided'].append('contract target missing: %s' % self.qualname)
+            return res
+        res['functions_extra'].append(describe(fref))
+        R = Registry()
+        tnnorm.install(R)
+        R.models['backends.node_array.NodeArray.rank'] = nasvd._rank_model
+        R.model_properties.add('backends.node_array.NodeArray.rank')
+
+        @model
+        def m_add_singleton(ip, args, kw):
+            t, index = args[0], args[1]
+            out = list(t.out)
+            out.insert(index, ('one', tnnorm.new_label()))
+            return TArr(t.factors, out, t.coeff)
+        R.models['util.add_singleton'] = m_add_singleton
+        agg = {}
+
+        def note(name, ok, info):
+            a = agg.setdefault(name, {'ok': True, 'n': 0, 'first': None})
+            a['n'] += 1
+            if not ok and a['ok']:
+                a['ok'], a['first'] = False, info
+        for n in (2, 3, 4, 5):
+            for step in range(-1, n + 1):
+                Vv.reset_fresh()
+                ip = Interp(repo, R, [], solver_timeout_ms=timeout_ms)
+                try:
+                    ts = [TArr.sym('A%d' % i, 1 + (1 if i > 0 else 0) + (1 if i < n - 1 else 0)) for i in range(n)]
+                    mps = ip.call(ctor, [ts], {'left': False, 'right': False, 'name': 'mps'})
+                    dim = Int('dimension')
+                    self_ = mkobj(repo, 'backends.pt_tempo_backend.PtTempoBackend', _mps=mps, _num_steps=n, _dimension=dim)
+                    raised, out = None, None
+                    try:
+                        out = ip.call(fref, [self_, step], {})
+                    except PyRaise as pr:
+                        raised = pr.exc.typ
+                except Unsupported as u:
+                    res['undecided'].append('unsupported construct in get_mpo_tensor (n=%d, step=%d): %s' % (n, step, u))
+                    continue
+                res['paths'] += 1
+                cfg = {'steps': n, 'step': step}
+                if not 0 <= step < n:
+                    # (a negative step is not an index of the documented interface; step >= n must be rejected)
+                    if step >= n:
+                        note('pt/readout/rejects-steps-beyond-the-end', raised == 'AssertionError', dict(cfg, raised=raised))
+                    continue
+                if raised is not None or not isinstance(out, TArr):
+                    note('pt/readout/tensor-of-that-step', False, dict(cfg, raised=raised))
+                    continue
+                a = ts[step]
+                if step == 0:
+                    want = TArr(a.factors, [('one', 'x'), a.out[1], a.out[0]], ('dimension',))
+                elif step == n - 1:
+                    want = TArr(a.factors, [a.out[0], ('one', 'x'), a.out[1]], ('dimension',))
+                else:
+                    want = TArr(a.factors, [a.out[0], a.out[2], a.out[1]], ('dimension',))
+
+                def strip(t):
+                    return TArr(t.factors, [(('one', 'x') if isinstance(l, tuple) and l[0] == 'one' else l) for l in t.out], t.coeff)
+                note('pt/readout/tensor-of-that-step', equal(strip(out), want), dict(cfg, returned=repr(out), required=repr(want)))
+        for name, a in sorted(agg.items()):
+            info = {'configurations': a['n'], 'first failing': a['first']}
+            res['obligations'].append({'name': name, 'backend': 'tnnorm', 'flags': res['flags'], 'info': info, 'model': info, 'pc_sat': 'sat',
+                                       'result': 'discharged' if a['ok'] else 'refuted', 'seconds': 0.0})
+        res['seconds'] = round(time.time() - t0, 3)
+        return res
+
+
+def scen_update_pt(ip, repo):
+    n = Int('num_steps')
+    ip.assume(n >= 2)
+    pt = Obj('PTrec', {})
+    self_ = mkobj(repo, 'backends.pt_tempo_backend.PtTempoBackend', _step=n, _num_steps=n, _process_tensor=pt)
+    ip.ghost['pt_writes'] = SymMap()
+    return {'args': [self_], 'self': self_, 'n': n, 'inputs': {'num_steps': n}}
+
+
+def update_registry():
+    R = Registry()
+    MPO = z3.Function('mpo_tensor_of_step', z3.IntSort(), V)
+
+    @model
+    def m_get(ip, args, kw):
+        return MPO(to_int(args[1]))
+
+    @model
+    def m_set(ip, args, kw):
+        ip.log.append(('set', to_int(args[1]), args[2]))
+        if ip.log and any(e[0] == 'caps' for e in ip.log):
+            ip.ghost['set_after_caps'] = True
+
+    @model
+    def m_caps(ip, args, kw):
+        ip.log.append(('caps',))
+    R.models['backends.pt_tempo_backend.PtTempoBackend.get_mpo_tensor'] = m_get
+    R.models['PTrec.set_mpo_tensor'] = m_set
+    R.models['PTrec.compute_caps'] = m_caps
+
+    def template(ip, frame, k):
+        return {'@facts': [k >= 0]}
+    R.invariants[('backends.pt_tempo_backend.PtTempoBackend.update_process_tensor', 0)] = LoopInv(template, 'update-loop')
+    R.MPO = MPO
+    return R
+
+
+def post_update_pt(ip, ctx, out):
+    if not expect_no_other_exception(ip, out):
+        return
+    sets = [e for e in ip.log if e[0] == 'set']
+    caps = [i for i, e in enumerate(ip.log) if e[0] == 'caps']
+    # the loop body is checked at a generic iteration: the step written is the loop's step and the tensor is that step's tensor
+    for e in sets:
+        ip.prove('pt/update/writes-the-tensor-of-its-step', e[2] == z3.Function('mpo_tensor_of_step', z3.IntSort(), V)(e[1]))
+        ip.prove('pt/update/step-in-range', z3.And(e[1] >= 0, e[1] < ctx['n']))
+    if out.returned:
+        ln = ip.ghost.get('loop_len', {}).get('update-loop')
+        ip.prove('pt/update/every-step-is-written', (to_int(ln) == ctx['n']) if ln is not None else z3.BoolVal(False), {'iterations': repr(ln)})
+        ip.prove('pt/update/caps-computed-last', z3.BoolVal(len(caps) == 1 and caps[0] == len(ip.log) - 1 and not ip.ghost.get('set_after_caps')))
+
+
+def path_end_update(ip, ctx):
+    sets = [e for e in ip.log if e[0] == 'set']
+    k = ip.ghost.get('loop_k', {}).get('update-loop')
+    if k is not None:
+        # reversed(range(n)) at iteration k is step n - 1 - k: every step is visited exactly once
+        ip.prove('pt/update/one-write-per-step', z3.And([z3.BoolVal(len(sets) == 1)] + [e[1] == ctx['n'] - 1 - k for e in sets]))
+        for e in sets:
+            ip.prove('pt/update/writes-the-tensor-of-its-step', e[2] == z3.Function('mpo_tensor_of_step', z3.IntSort(), V)(e[1]))
+
+
+_t_c02 = targets
+
+
+def targets(tier='quick'):
+    T = _t_c02(tier)
+    T.append(PtReadoutTarget())
+    t = Target('pt/update_process_tensor', 'backends.pt_tempo_backend.PtTempoBackend.update_process_tensor', scen_update_pt, post_update_pt, update_registry(), PROP,
+               replay=rp)
+    t.path_end = path_end_update
+    T.append(t)
+    return T
